@@ -468,6 +468,20 @@ def r3_full_read_mode(ck, cx):
                           message='a unit stays on the no-response list unless %s also holds: its next replies are read in "full" mode with the '
                                   'length predicted for a normal reply, which an exception reply never reaches' % extra[:2])
     ck.floor('R3', min(n_add, n_rem), 1, 'listing / release sites of the no-response bookkeeping')
+    # the mode chosen by execute() is the mode _recv gets: _transact does not turn the probe read off on its own
+    tr = cx.method(sh.tm, '_transact')
+    fullp = tr.params[3] if len(tr.params) > 3 else 'full'
+    nf = 0
+    for p in cx.enum(tr, sh.tm, max_depth=0):
+        annotate(p, heap=False)
+        for e in p.ev:
+            if e.kind == 'call' and callee_name(e.node) == '_recv' and len(e._sub.args) >= 2:
+                nf += 1
+                ck.ob('R3', tr.qn, '_transact hands the `full` flag it was given to _recv', U(e._sub.args[1]) == fullp,
+                      detail='full-flag-overridden %s' % U(e._sub.args[1])[:30], loc=cx.floc(tr, e.node),
+                      message='_transact calls _recv with full=%s instead of the flag chosen by execute(): the short probe read that recognises an '
+                              'exception reply is skipped and the client waits for the length of a normal reply' % U(e._sub.args[1])[:40])
+    ck.floor('R3', nf, 1, '_recv calls in _transact')
 
 
 def run(ck, tier):
